@@ -219,7 +219,9 @@ inline const rtosc::Ports Lane::ports = {
 inline const rtosc::Ports Comp2::ports = {
     rSelf(Comp2, rEnabledBy(on)),
     {"gain::i", rProp(parameter) rMap(min, 0) rMap(max, 9) rDefault(0) rDoc("parameter of a component whose enabling toggle is on by default"), NULL, OINT(Comp2, gain, o->gain = CLAMP(v, 0, 9))},
-    {"on::T:F", rProp(parameter) rDefault(true) rDoc("switching the component on gives a fresh component"), NULL, OTOG(Comp2, on, o->on = on; if (on) o->gain = 0)},
+    // the toggle's default depends on a read-only sibling (doc/Guide.adoc, "Default Values": the selector need not be a parameter); neither has a line while at its default
+    {"on::T:F", rProp(parameter) rDefaultDepends(idx) rPreset(0, true) rDefault(false) rDoc("switching the component on gives a fresh component"), NULL, OTOG(Comp2, on, o->on = on; if (on) o->gain = 0)},
+    {"idx:", rDoc("read-only: which component this is"), NULL, [](const char *, rtosc::RtData &d) { d.reply(d.loc, "i", 0); }},
 };
 #undef rObject
 #define rObject Voice
